@@ -33,7 +33,7 @@ pub struct TreeSpec {
 }
 
 pub const NAMES: &[&str] = &[
-    "a", "b", "c", "ab", "a.b", ".a", ".git", "A", "é", "*", "[a]", "{a}", "a,b", "-", "aa", "x.rs", "b.rs", "a b", "..a", "字", "a\nb", "a|b", "a\\b",
+    "a", "b", "c", "ab", "a.b", ".a", ".git", "A", "é", "*", "[a]", "{a}", "a,b", "-", "aa", "x.rs", "b.rs", "a b", "..a", "字", "a\nb", "a|b", "a\\b", "𐐨", "𐐀b", "e\u{301}",
 ];
 
 #[derive(Clone, Debug)]
